@@ -13,7 +13,11 @@ ENGINE_TEXT = {
     "sm": "StateMachine / AutonomousStateMachine under a simulated control loop: generated machine classes (real decorators), seeded op+fault plans, paused HAL clock, real ntcore",
 }
 
+INTEGRATION_NOTE = "; every 12th run is an integration run: the machine is a component (or the selected autonomous mode) of a generated MagicRobot executed by engine robot, so engage() comes from teleopPeriodic, on_disable() from real mode changes, pacing from the real NotifierDelay and, for autonomous modes, tm from the selector's timer"
+
 def _sm(rule, probes, quick=9000, thorough=400000):
+    rule = rule + INTEGRATION_NOTE
+    probes = list(probes) + ["integration_runs", "embedded_machine_stops"]
     return {
         "engine": "sm", "level": "exploration", "rule": rule,
         "level_text": "seeded search over control-loop histories, clock schedules and faults (dropped engage(), external stops, dashboard duration edits, restarts, slow state functions) of generated machines run on the real code; every step compared with an executable reference model written from the property text, plus model-independent history invariants; sampling, not proof",
@@ -83,11 +87,11 @@ PROPS.update({
 ENGINE_TEXT["sa"] = "StatefulAutonomous under simulated autonomous periods: generated mode classes, seeded tm sequences, dashboard edits, repeated periods, second instance"
 PROPS["C15"] = {
     "engine": "sa", "level": "exploration",
-    "rule": "seeded mode definitions (chains/loops/branches, 16 signatures, registered variables) and per-period tm sequences aimed at expiry instants, dashboard edits between and during periods, 1-4 periods, sequential second instance; non-trivial = a state is entered in a second or later period or a state is re-entered; distinct = distinct trace shape",
+    "rule": "seeded mode definitions (chains/loops/branches, 16 signatures, registered variables) and per-period tm sequences aimed at expiry instants, dashboard edits between and during periods, 1-4 periods, sequential second instance; non-trivial = a state is entered in a second or later period or a state is re-entered; distinct = distinct trace shape" + INTEGRATION_NOTE,
     "level_text": "seeded search over autonomous-period histories on the real StatefulAutonomous with real NetworkTables values; every on_iteration compared with a reference model written from the property text plus model-independent history invariants; sampling, not proof",
     "level_note": "trusted: local ntcore; reference model/invariants in /verif; <=5 states, <=100 iterations per period, <=4 periods; iterations only between on_enable and on_disable (the selector's protocol); two instances never interleaved",
     "quick": {"runs": 9000, "wall_s": 150}, "thorough": {"runs": 400000, "wall_s": 1500},
-    "probes_expected": ["expiry_handover", "entries_in_later_period", "entry_with_state_tm_gt_0", "next_state_to_self", "idle_iteration_after_end"],
+    "probes_expected": ["expiry_handover", "entries_in_later_period", "entry_with_state_tm_gt_0", "next_state_to_self", "idle_iteration_after_end", "integration_runs"],
     "state_measure": "abstract model states (kind of current state, fresh, enabled) and (state, op, state) transitions, hashed",
     "real_vs_stub": {"real": ["robotpy_ext.autonomous.stateful_autonomous from the working tree", "ntcore local instance (SmartDashboard table)", "HAL simulated clock"],
                      "simulated": ["the autonomous loop supplying tm", "dashboard edits", "state-function bodies (generated)"]},
